@@ -4,18 +4,18 @@ CONSTANTS
   InitCfg = "abc"
   CfgTab <- Tab3
   MaxTerm = 3
-  MaxLog = 2
-  MaxClient = 0
+  MaxLog = 3
+  MaxClient = 1
   MaxCrash = 0
   MaxMsgs = 3
   MaxSnap = 0
   MaxMember = 0
-  MaxTimeout = 2
+  MaxTimeout = 1
   MaxDrop = 0
   MaxMisc = 0
   MaxAppend = 2
   Trailing = 1
-  Features = {"prevote"}
+  Features = {"client"}
 VIEW view
 INVARIANTS ElectionSafety OneVotePerTerm TermDurable CommittedFunctional CommittedStable LeaderComplete LogMatching TermsMonotoneM CommitBounded CommitJustified FsmOnlyCommitted FsmInOrder FsmAgree OneUncommittedCfg NoHoleM ReportedCovered
 CHECK_DEADLOCK FALSE
